@@ -59,7 +59,7 @@ def ResumeKU (K V : Type) : Prop :=
 /-- Delete -/
 def ResumeKD (K V : Type) : Prop :=
   ∀ (lt : K → K → Bool) (P : Params K) (t : Nat) (s : St K V) (k : Kont K V) (H : List Lk),
-    isDelK k = true → KParams lt P → Pre P (kontHole k) s → KontOk s.tree k →
+    isDelK k = true → 4 ≤ s.tree.order → KParams lt P → Pre P (kontHole k) s → KontOk s.tree k →
     KontPre s.cursor k → Covers H s.cursor k →
     OrdTree lt s.tree → KPos lt s.tree k →
     KPost lt t k s (resume P t s k).1 (resume P t s k).2 ∧
